@@ -232,3 +232,52 @@ func CertTable(b []byte, im *Image) []WinCert {
 	}
 	return out
 }
+
+// Attach produces the signed file the specification describes for an image
+// without certificate table: the image zero-padded to 8 bytes, followed by one
+// WIN_CERTIFICATE (revision 0x0200, type 0x0002) per blob, each padded to 8
+// bytes, with the directory entry spanning the table exactly to end of file.
+func Attach(img []byte, blobs ...[]byte) ([]byte, error) {
+	im, err := Parse(img)
+	if err != nil {
+		return nil, err
+	}
+	if im.CertSize != 0 {
+		return nil, ill("image already has a certificate table")
+	}
+	out := append([]byte{}, img...)
+	for len(out)%8 != 0 {
+		out = append(out, 0)
+	}
+	off := len(out)
+	for _, b := range blobs {
+		l := 8 + len(b)
+		out = binary.LittleEndian.AppendUint32(out, uint32(l))
+		out = binary.LittleEndian.AppendUint16(out, 0x0200)
+		out = binary.LittleEndian.AppendUint16(out, 0x0002)
+		out = append(out, b...)
+		for len(out)%8 != 0 {
+			out = append(out, 0)
+		}
+	}
+	binary.LittleEndian.PutUint32(out[im.CertDirOff:], uint32(off))
+	binary.LittleEndian.PutUint32(out[im.CertDirOff+4:], uint32(len(out)-off))
+	return out, nil
+}
+
+// Strip returns the image without its certificate table and with the
+// directory entry zeroed (the padding added before the table is kept).
+func Strip(img []byte) ([]byte, error) {
+	im, err := Parse(img)
+	if err != nil {
+		return nil, err
+	}
+	if im.CertSize == 0 {
+		return append([]byte{}, img...), nil
+	}
+	out := append([]byte{}, img[:im.CertOff]...)
+	for i := 0; i < 8; i++ {
+		out[im.CertDirOff+i] = 0
+	}
+	return out, nil
+}
